@@ -1,15 +1,70 @@
 """C09 - each RPC call returns exactly the result addressed to its own request (client as LTS:
 Coq invariants over all histories + trace validation of the real client against the extracted step)."""
+import os
+import subprocess
+
 from .. import common as C
 from . import client_common as CC
 
 
+def reqid_stage(ctx, stats):
+    """mtproto.go reqMsgIDOf (the id under which the receive loop looks up decoder hints) against TL/ReqId.v
+    req_msg_id_of on message bodies of every shape; direct oracle: a body built as rpc_result{id, ...}, plain or packed
+    with an intact stream, must give id; everything that is not a result must give 0; never a panic."""
+    hb = C.build_harness("root", pkg="./cmd/c09")
+    C.build_model("C09")
+    cases = ctx.work + "/reqid_cases.txt"
+    rc, out = C.sh([hb, "reqid", ctx.tier, cases], env=ctx.env(), timeout=900, cwd=ctx.work)
+    if rc != 0 or not os.path.exists(cases):
+        raise C.BuildError("c09 reqid failed (rc=%s): %s" % (rc, out[-1500:]))
+    mo = ctx.work + "/reqid_model.txt"
+    with open(cases, "rb") as fin, open(mo, "wb") as fout:
+        p = subprocess.run(["%s/model_C09" % C.BIN, "reqid"], stdin=fin, stdout=fout, stderr=subprocess.PIPE, timeout=900)
+    if p.returncode != 0:
+        raise C.BuildError("model driver C09 reqid failed: " + p.stderr.decode()[-1500:])
+    model = {f[0]: f[1] for f in C.read_tsv(mo) if len(f) >= 2}
+    n = 0
+    for f in C.read_tsv(cases):
+        if f[0] != "K":
+            continue
+        _, cid, kind, body, impl = f[:5]
+        n += 1
+        stats["reqid_" + kind] += 1
+        want = None
+        if kind in ("result", "packed-result", "packed-result+tail", "result-large", "packed-result-large"):
+            off = 8 if kind.startswith("result") else None
+            if off is not None:
+                want = "%x" % int.from_bytes(bytes.fromhex(body[off:off + 16]), "little")
+        elif kind in ("other", "packed-other", "packed-notgzip", "packed-empty", "packed-longheader", "result-cut"):
+            want = "0"
+        key = "reqid:%s:%s" % (kind, C.digest([body]) if hasattr(C, "digest") else body[:40])
+        rep = {"kind": "reqid", "body_kind": kind, "body_hex": body if len(body) < 4000 else body[:4000] + "...", "case": cid,
+               "how": "harness/root/cmd/c09 reqid: mtproto.VerifReqMsgIDOf(body)"}
+        if impl == "panic":
+            C.violation(ctx, key, "reqMsgIDOf panics on a %s body (%d bytes): the receive loop dies before the message is even decoded"
+                        % (kind, len(body) // 2), dict(rep, expected="an id or 0", got="panic"))
+        elif want is not None and impl != want:
+            C.violation(ctx, key, "decoder hints are looked up under id %s for a %s body whose request id is %s: the caller's hints are "
+                        "not found (a Vector<> result cannot be decoded) or another caller's are used" % (impl, kind, want),
+                        dict(rep, expected=want, got=impl, oracle="the id the harness wrote into the body"))
+        elif model.get(cid) != impl:
+            C.violation(ctx, key, "reqMsgIDOf gives %s on a %s body, the model TL/ReqId.v req_msg_id_of gives %s" % (impl, kind, model.get(cid)),
+                        dict(rep, expected=model.get(cid), got=impl, oracle="model TL/ReqId.v", no_failing_input=True))
+    stats["reqid_cases"] = n
+    if n == 0:
+        raise C.BuildError("c09 reqid produced no cases")
+
+
 def run(ctx):
     pr, stats, validated, dis, distinct, samples, exh = CC.run_prop(ctx, "C09", n_quick=400, n_thorough=4000)
+    reqid_stage(ctx, stats)
     return CC.finish(ctx, "C09", pr, stats, validated, dis, distinct, samples, exh,
                      "Direct oracle for C09: every completed call returned kind:token of the answer the reference server addressed "
                      "(req_msg_id) to the frame that carried this call's token; a declared Vector<> arrives as the typed slice; the process "
-                     "must not die while results are delivered.")
+                     "must not die while results are delivered. Hint lookup: reqMsgIDOf (hook VerifReqMsgIDOf) on bodies of every shape - "
+                     "results plain / packed / packed with a tail / cut / with damaged or foreign streams / large, other constructors carrying "
+                     "the id in the same place, random bytes; ids over the full 64-bit range - against TL/ReqId.v req_msg_id_of (C09_hint_key_*) "
+                     "and against the id the harness wrote.")
 
 
 def replay(ctx, path):
